@@ -428,7 +428,8 @@ func (h *harness) fullServer(rng *rand.Rand, seqWorlds, concWorlds int) {
 
 func main() {
 	r := ev.New("C06", "exploration")
-	r.Rule("one case = one simulated cluster history (world seed -> split/merge/conf-change/leader-change/size events; plan seed -> per-snapshot delay, loss, duplication, stale re-delivery, stream assignment) delivered to a fresh RaftCluster; sequential cases are distinct by the sequence of per-delivery outcomes (new/newer/displacing/same-epoch accepted, stale-same-id, stale-overlap, rejected) and count only when they contain a stale rejection and a displacement; concurrent cases are distinct by the accept/reject pattern per stream in call order and count only when same-id deliveries overlapped in time and something was rejected")
+	r.Rule("one case = one simulated cluster history (world seed -> split/merge/conf-change/leader-change/size events; plan seed -> per-snapshot delay, loss, duplication, stale re-delivery, stream assignment) delivered to a fresh RaftCluster; sequential cases are distinct by the sequence of per-delivery outcomes (new/newer/displacing/same-epoch accepted, stale-same-id, stale-overlap, rejected) and count only when they contain a stale rejection and a displacement; concurrent cases are distinct by the accept/reject pattern per stream in call order and count only when same-id deliveries overlapped in time and something was rejected; directed racing pairs (delayed merge heartbeat of a cached region vs first heartbeat(s) of newer region ids inside the merged range, 4 layouts x 3 yield modes) are distinct by layout, yield mode and accept/refuse outcome")
+	r.Assume("racing pairs: pd's global logger is replaced by a zap core that, only for the goroutine delivering the merge heartbeat, yields at pd's own log calls between the unlocked validation and the cluster lock (bounded wait for the other goroutine's calls to return, or Gosched); a delay at a pre-emption point, no semantic change; no wall-clock value enters a verdict")
 	r.Assume("the world simulator follows the store-side epoch rules (split: version += pieces-1 for all pieces; merge: prepare source version+1 conf_ver+1, commit target version = max+1; conf change conf_ver+1; leader change term+); hence of two snapshots with intersecting ranges and different id or range the earlier one has the smaller version")
 	r.Assume("light harness: cluster.NewRaftCluster + InitCluster(mockid, default options, core.NewStorage(kvx(memory kv)), BasicCluster with 4-6 up stores), heartbeats through the verif hook VerifProcessRegionHeartbeat (no coordinator); thorough tier additionally a real single-member server (HandleRegionHeartbeat, gRPC handler methods called on the server object, cluster storage replaced by kvx(memory kv))")
 	r.Assume("acceptance of a heartbeat that is not stale is not demanded by the statement: such rejections are counted (fresh_heartbeat_rejected), not judged; in concurrent mode a per-reader regression that may be a re-admission after displacement is counted (skipped_ambiguous_concurrent_regress), the exact classification is done in sequential mode")
@@ -478,6 +479,8 @@ func main() {
 		h.concWorld(genParams(rng, alphaN, mr, concEvents, streams, false), 3, "full-events", i)
 	}
 	lap("concurrent_full_events")
+	h.racingPairs(rand.New(rand.NewSource(r.ShardSeed()^0x7ace)), r.Pick(640, 3200))
+	lap("racing_pairs")
 	h.canonicalD12()
 	r.Set("phase_seconds", phases)
 	r.Set("minimize_seconds", h.minSeconds)
